@@ -45,3 +45,41 @@ package ast
 //@   nopanic
 //@   requires fd != nil
 //@   ensures result == fd.SelectionSet
+
+// ---- node constructors: return the node they are given, tagged with its kind (C03) ----
+//@ func NewArgument
+//@   props C03
+//@   requires arg != nil
+//@   assigns class:ast.Argument.Kind
+//@   nopanic
+//@   ensures result == arg
+//@ func NewField
+//@   props C03
+//@   requires f != nil
+//@   assigns class:ast.Field.Kind
+//@   nopanic
+//@   ensures result == f
+//@ func NewOperationDefinition
+//@   props C03
+//@   requires op != nil
+//@   assigns class:ast.OperationDefinition.Kind
+//@   nopanic
+//@   ensures result == op
+//@ func NewSelectionSet
+//@   props C03
+//@   requires ss != nil
+//@   assigns class:ast.SelectionSet.Kind
+//@   nopanic
+//@   ensures result == ss
+//@ func NewVariable
+//@   props C03
+//@   requires v != nil
+//@   assigns class:ast.Variable.Kind
+//@   nopanic
+//@   ensures result == v
+//@ func NewVariableDefinition
+//@   props C03
+//@   requires vd != nil
+//@   assigns class:ast.VariableDefinition.Kind
+//@   nopanic
+//@   ensures result == vd
